@@ -10,7 +10,14 @@ Three case families, all run through /verif/harness_human (command `human`):
         ascriptions, generated-looking names, unused definitions, repeated / missing / cyclic names,
         holes, shared witnesses) -> parse -> (single program) render -> parse -> compare;
         model: run_text (resolve + render + resolve)
-  str   arbitrary and mutated strings, deep nesting, long identifiers: termination, no panic.
+  str   arbitrary and mutated strings, deep nesting, long identifiers: termination, no panic; every
+        literal form after `const` / `fail` with the error code an independent reading predicts.
+  typ   complete types (all small shapes, words up to 2^(2^16), option chains, sums of products of
+        sums, the nesting budget at its boundary) -> Final's Display -> tokens -> parsed again in
+        target position; model: Human/TypeRun.v run_typ (Display loop + parse_type, token level)
+  tytext  type texts (generated from the grammar, with and without parentheses, mutated) in target
+        position -> the type the parser reads or its error; model: run_tytext
+  textcmr generated plain texts against the same program built through the construction API (root CMR)
 Scope decision (property text: "any successfully parsed single-program source text"): a text is in
 scope of the round-trip clause iff its parse succeeds with exactly one root and that root is `main`.
 Texts that parse to several roots (unused definitions, filled holes) or to none are only required to
@@ -20,6 +27,7 @@ evidence (`multi_root_reparse`) but is not a failure.
 import json
 import os
 import re
+import sys
 
 import proggen as pg
 import vplib
@@ -27,7 +35,7 @@ from vplib import Case
 
 PROP = "C17"
 LEVEL = "proof"
-IMPORTS = ["Core.Prog", "Human.Namer", "Human.Render", "Human.Resolve", "Human.Run"]
+IMPORTS = ["Core.Prog", "Human.Namer", "Human.Render", "Human.Resolve", "Human.Run", "Human.TypeText", "Human.TypeRun"]
 CRATE = None  # merged into the main harness crate
 CORPUS = os.path.join(vplib.VERIF, "corpus", "C17")
 
@@ -358,6 +366,25 @@ def roundtrip_check(lines, rp, what, np=0):
 
 
 def prop_check(c, r):
+    if r == "CRASH" and c.kind in ("text", "tytext") and c.meta.get("type_chain"):
+        return ("parse-type-chain-stack-overflow", "Forest::parse aborts the process (stack overflow in ast::Type::reify) on a type "
+                "ascription built by chains of `?` / `+` / `*` (%s, %d bytes of source)" % (c.meta.get("tag"), len(c.meta.get("src", ""))))
+    if c.kind in ("typ", "tytext", "textcmr"):
+        if r in ("CRASH", "TIMEOUT") or r is None:
+            return ("parse-crash" if r == "CRASH" else "parse-timeout",
+                    "the process %s on %s %s" % ("aborted" if r == "CRASH" else "did not finish", c.kind, c.line[:200]))
+        if c.kind == "typ":
+            return check_typ(c, r)
+        if c.kind == "tytext":
+            if r[:1] == [9]:
+                return ("parse-panic", "Forest::parse panicked on the type text %r" % c.meta.get("src", "")[:200])
+            return None
+        if r[:1] == [9]:
+            return ("parse-panic", "Forest::parse panicked on the source text %r" % c.meta.get("src", "")[:200])
+        if r[:2] == [0, 0]:
+            return ("parse-cmr-vs-construction", "the program parsed from %r has another commitment root than the same program "
+                    "built through the construction API (%s)" % (c.meta.get("src", "")[:300], c.line.split()[-1][:200]))
+        return None
     if r == "CRASH" and c.kind == "text" and nesting(c.meta.get("src", "")) > 4000:
         return ("parse-stack-overflow", "Forest::parse aborts the process (stack overflow in the recursive descent parser) on a "
                 "source text of %d bytes nested about %d deep" % (len(c.meta.get("src", "")), nesting(c.meta.get("src", ""))))
@@ -385,6 +412,9 @@ def prop_check(c, r):
                         "text with a definition line of more than 65535 characters (%d bytes of source)" % len(c.meta.get("src", "")))
             return ("render-panic", "string_serialize panicked on the parsed source text %r" % c.meta.get("src", "")[:200])
         return ("parse-panic", "Forest::parse panicked on the source text %r" % c.meta.get("src", "")[:200])
+    ex = check_expect(c, d)
+    if ex is not None:
+        return ex
     if d["stage"] == "rendered":
         return roundtrip_check(d["lines"], d["reparse"], "source text %r" % c.meta.get("src", "")[:300], d["np"])
     return None
@@ -423,6 +453,8 @@ def finding_match(c, r, cls):
 
 
 def nontrivial(c, r):
+    if c.kind in ("typ", "tytext") and isinstance(r, list) and len(r) > 3:
+        return (c.kind, tuple(r[:400]))
     d = decode_result(c.kind, r) if c.kind in ("prog", "text") else None
     if d is None:
         return None
@@ -937,6 +969,11 @@ def hand_programs():
                     ("comp", 3, 7)]))
     P.append(("c", [("unit",), ("injl", 0), ("unit",), ("comp", 1, 2)]))                     # 1 + 1 = 2, no option type
     P.append(("c", [("word", 3, [1, 0, 1, 0, 1, 0, 1, 1]), ("injr", 0), ("unit",), ("comp", 1, 2)]))   # option type 2^8?
+    # options of options in arrows: 2??, 2^8??, (2 * 2)?? and an option inside a product inside an option
+    P.append(("c", [("unit",), ("injl", 0), ("injr", 1), ("injr", 2), ("unit",), ("comp", 3, 4)]))
+    P.append(("c", [("word", 3, [1, 0, 1, 0, 1, 0, 1, 1]), ("injr", 0), ("injr", 1), ("injr", 2), ("unit",), ("comp", 3, 4)]))
+    P.append(("c", [("unit",), ("injl", 0), ("pair", 1, 1), ("injr", 2), ("injr", 3), ("unit",), ("comp", 4, 5)]))
+    P.append(("c", [("unit",), ("injr", 0), ("injr", 1), ("unit",), ("pair", 2, 3), ("injr", 4), ("unit",), ("comp", 5, 6)]))
     for n in range(0, 13):
         bits = [(i * 7 + n) % 3 % 2 for i in range(2 ** n)]
         P.append(("c", [("word", n, bits), ("unit",), ("comp", 0, 1)]))
@@ -1069,6 +1106,12 @@ def text_cases(rng, tier, good, jet_ids, add):
             stats[tag] = stats.get(tag, 0) + 1
             add("text", "%s %s" % (fam, src.encode().hex() or "-"), "run_text %s" % tg.coq(),
                 {"src": src, "zero_assert": tg.zero_assert, "mutated": tag != "plain", "tag": tag, "fam": fam})
+            if tag == "plain" and not any(nd[0] == "fail" for nd in prog):
+                # (the text generator shortens fail entropies, so programs with `fail` are not comparable)
+                # the same program through the construction API: equal commitment roots (an assertion written
+                # `#{expr}` / `#<cmr>` has the root of the case node it came from; a hole that of its disconnect)
+                add("textcmr", "%s %s 1 %s" % (fam, src.encode().hex() or "-", pg.prog_pdl(prog)), None,
+                    {"src": src, "tag": "textcmr", "fam": fam})
             n += 1
     return stats
 
@@ -1087,14 +1130,24 @@ VALID_SNIPPETS = [
 
 
 def string_cases(rng, tier, add):
-    def addstr(s, tag, fam="c"):
+    def addstr(s, tag, fam="c", expect=None, **kw):
         if isinstance(s, str):
             b = s.encode("utf-8", "replace")
         else:
             b = bytes(s)
-        add("text", "%s %s" % (fam, b.hex() or "-"), None, {"src": b.decode("utf-8", "replace"), "tag": tag, "fam": fam})
+        meta = {"src": b.decode("utf-8", "replace"), "tag": tag, "fam": fam}
+        if expect:
+            meta["expect"] = list(expect)
+        meta.update(kw)
+        add("text", "%s %s" % (fam, b.hex() or "-"), None, meta)
 
     addstr("", "empty")
+    literal_cases(addstr)
+    # chains of type operators (loops of the parser): moderate lengths; the long ones are corpus cases
+    for k in (999, 1000, 5000):
+        addstr("x : 1" + "?" * k + " -> 1", "option-chain-%d" % k, type_chain=True)
+        addstr("main := iden : 1" + " * 1" * k + " -> _", "product-chain-%d" % k, type_chain=True)
+        addstr("x : _ -> 2" + "+2^8" * k, "sum-chain-%d" % k, type_chain=True)
     for s in VALID_SNIPPETS:
         addstr(s, "snippet")
         addstr(s, "snippet", "e")
@@ -1178,21 +1231,401 @@ def corpus_cases(add):
     return n
 
 
+
+# ------------------------------------------------------------------ types at token level (phase 2)
+# compressed types: ("u",) | ("s", a, b) | ("p", a, b) | ("w", n)   (2^(2^n), one node)
+sys.setrecursionlimit(max(sys.getrecursionlimit(), 20000))
+TU = ("u",)
+MAX_NESTING = 1000
+U32_MAX = 4294967295
+
+
+def tw(n):
+    return ("w", n)
+
+
+def t_word(t):
+    """n if t denotes 2^(2^n), n <= 31 (the TMR table), else None"""
+    if t[0] == "w":
+        return t[1]
+    if t[0] == "s":
+        return 0 if t[1] == TU and t[2] == TU else None
+    if t[0] == "p":
+        a, b = t_word(t[1]), t_word(t[2])
+        if a is not None and a == b and a < 31:
+            return a + 1
+    return None
+
+
+def t_pdl(t):
+    if t[0] == "w":
+        return "w" + pg.DIG[t[1]]
+    if t[0] == "u":
+        return "u"
+    return t[0] + t_pdl(t[1]) + t_pdl(t[2])
+
+
+def t_coq(t):
+    """iterative for the deep ones"""
+    out = []
+    stack = [t]
+    while stack:
+        x = stack.pop()
+        if isinstance(x, str):
+            out.append(x)
+        elif x[0] == "u":
+            out.append("AOne")
+        elif x[0] == "w":
+            out.append("ATwo" if x[1] == 0 else "(APow %d)" % x[1])
+        else:
+            out.append("(ASum " if x[0] == "s" else "(AProd ")
+            stack.append(")")
+            stack.append(x[2])
+            stack.append(" ")
+            stack.append(x[1])
+    return "".join(out)
+
+
+def t_nums(t):
+    """harness ty_nums of the denoted type (independent of the model)"""
+    n = t_word(t)
+    if n is not None and n >= 1:
+        return [3, n]
+    if t[0] == "w":
+        return [1, 0, 0]
+    if t[0] == "u":
+        return [0]
+    return [1 if t[0] == "s" else 2] + t_nums(t[1]) + t_nums(t[2])
+
+
+def t_tokens(t, top=True):
+    """reference printer: what Final's Display is documented to print (token numbers of the harness)"""
+    n = t_word(t)
+    if n is not None:
+        return [2] if n == 0 else [3, 2 ** n]
+    if t[0] == "u":
+        return [1]
+    if t[0] == "s" and t[1] == TU:
+        return t_tokens(t[2], False) + [4]
+    inner = t_tokens(t[1], False) + [7 if t[0] == "s" else 8] + t_tokens(t[2], False)
+    return inner if top else [5] + inner + [6]
+
+
+def t_budget(t, top=True):
+    """depth of the type with words as leaves, plus one: the printed form is read back iff this is
+    <= MAX_NESTING (reference for TypeText.small: tdepth t < 1000); iterative"""
+    memo = {}
+    stack = [(t, False)]
+    while stack:
+        x, done = stack.pop()
+        if id(x) in memo:
+            continue
+        if t_word(x) is not None or x[0] == "u":
+            memo[id(x)] = 0
+            continue
+        if done:
+            memo[id(x)] = 1 + max(memo[id(x[1])], memo[id(x[2])])
+        else:
+            stack.append((x, True))
+            stack.append((x[1], False))
+            stack.append((x[2], False))
+    return memo[id(t)] + 1
+
+
+def all_shapes(k):
+    """all types with exactly k binary constructors over the leaf 1"""
+    if k == 0:
+        return [TU]
+    out = []
+    for i in range(k):
+        for a in all_shapes(i):
+            for b in all_shapes(k - 1 - i):
+                out.append(("s", a, b))
+                out.append(("p", a, b))
+    return out
+
+
+def rand_cty(rng, depth, leaves):
+    r = rng.below(10)
+    if depth <= 0 or r < 2:
+        return rng.choice(leaves)
+    if r < 4:
+        return ("s", TU, rand_cty(rng, depth - 1, leaves))
+    if r < 7:
+        return ("s", rand_cty(rng, depth - 1, leaves), rand_cty(rng, depth - 1, leaves))
+    return ("p", rand_cty(rng, depth - 1, leaves), rand_cty(rng, depth - 1, leaves))
+
+
+def opt_chain(k, core):
+    t = core
+    for _ in range(k):
+        t = ("s", TU, t)
+    return t
+
+
+def lprod(k):
+    t = TU
+    for _ in range(k):
+        t = ("p", t, TU)
+    return t
+
+
+def type_cases(rng, tier, add):
+    quick = tier == "quick"
+    ts = []
+    for k in range(0, 4):
+        ts += all_shapes(k)
+    for k in (4, 5):
+        sh = all_shapes(k)
+        ts += sh if not quick else [sh[i] for i in sorted(set(rng.below(len(sh)) for _ in range(70)))]
+    ts += [tw(n) for n in range(0, 17 if quick else 21)]
+    ts += [opt_chain(k, c) for k in (1, 2, 3, 7) for c in (TU, tw(0), tw(3), tw(12), ("p", tw(0), tw(0)), ("s", tw(0), TU))]
+    ts += [("p", tw(n), tw(n)) for n in (0, 1, 5, 11, 12)] + [("p", tw(3), tw(4)), ("s", tw(5), tw(5))]
+    leaves = [TU, TU, tw(0), tw(0), tw(1), tw(3), tw(5), tw(8), tw(12)]
+    for i in range(90 if quick else 900):
+        ts.append(rand_cty(rng.fork("ty%d" % i), rng.range(2, 6), leaves))
+    # sums of products of sums
+    for i in range(12 if quick else 100):
+        r = rng.fork("spp%d" % i)
+        f = lambda: ("s", r.choice(leaves), r.choice(leaves))
+        g = lambda: ("p", f(), f())
+        ts.append(("s", g(), ("s", g(), g())) if r.chance(1, 2) else ("s", ("s", g(), g()), g()))
+    # the nesting budget at its boundary (option chains, left and right nested products, mixed)
+    for k in ((40, 998, 999, 1000, 1001) if quick else (40, 500, 997, 998, 999, 1000, 1001, 1002, 1500)):
+        ts.append(opt_chain(k, TU if k % 2 else tw(3)))
+    for k in ((30, 998, 999, 1000) if quick else (30, 400, 998, 999, 1000, 1001)):
+        ts.append(lprod(k))
+    rp = tw(1)
+    for _ in range(60):
+        rp = ("s", tw(2), ("p", rp, TU))
+    ts.append(rp)
+    ts.append(opt_chain(990, lprod(8)))
+    ts.append(opt_chain(990, lprod(9)))
+    ts.append(opt_chain(991, lprod(9)))
+    ts.append(opt_chain(997, ("p", TU, TU)))
+    ts.append(opt_chain(998, ("p", TU, TU)))
+    ts.append(opt_chain(999, ("p", TU, TU)))
+    seen = set()
+    n = 0
+    for t in ts:
+        key = t_pdl(t)
+        if key in seen:
+            continue
+        seen.add(key)
+        add("typ", "%s 0" % key, "run_typ %s" % t_coq(t), {"ty": key if len(key) < 200 else key[:200] + "...", "budget": t_budget(t),
+                                                           "tokens": t_tokens(t) if len(key) < 4000 else None, "nums": t_nums(t) if len(key) < 4000 else None})
+        n += 1
+    return n
+
+
+TOK_TEXT = {1: "1", 2: "2", 4: "?", 5: "(", 6: ")", 7: "+", 8: "*", 11: "_"}
+SYMS = {1: "A", 2: "B", 3: "t'", 4: "x.y-z"}
+POWS = [1, 2, 4, 8, 16, 32, 256, 512, 1024, 65536, 2 ** 30, 2 ** 31, 3, 5, 6, 12, 100, 2 ** 32, 2 ** 32 - 1, 2 ** 33, 10 ** 20]
+
+
+def tok_text(k):
+    if isinstance(k, tuple):
+        return "2^%d" % k[1] if k[0] == 3 else SYMS[k[1]]
+    return TOK_TEXT[k]
+
+
+def tok_coq(k):
+    if isinstance(k, tuple):
+        return "TPow %d" % k[1] if k[0] == 3 else "TSym %d" % k[1]
+    return {1: "TOne", 2: "TTwo", 4: "TQuestion", 5: "TLParen", 6: "TRParen", 7: "TPlus", 8: "TStar", 11: "TUnderscore"}[k]
+
+
+def gen_type_tokens(rng, depth):
+    """a token list from the grammar of parse_type (no parentheses unless drawn)"""
+    def atom(d):
+        r = rng.below(20)
+        if r < 6:
+            return [1]
+        if r < 10:
+            return [2]
+        if r < 14:
+            return [(3, rng.choice(POWS))]
+        if r < 15:
+            return [(10, rng.range(1, 4))]
+        if r < 16 and rng.chance(1, 3):
+            return [11]
+        if d > 0:
+            return [5] + expr(d - 1) + [6]
+        return [1]
+
+    def postfix(d):
+        return atom(d) + [4] * rng.choice([0, 0, 0, 1, 1, 2, 3])
+
+    def expr(d):
+        out = postfix(d)
+        for _ in range(rng.choice([0, 0, 1, 1, 2, 3])):
+            out += [rng.choice([7, 8])] + postfix(d)
+        return out
+
+    return expr(depth)
+
+
+def join_tokens(rng, toks):
+    out = ""
+    for k in toks:
+        s = tok_text(k)
+        if out and ((out[-1].isalnum() or out[-1] in "_'.-") and (s[0].isalnum() or s[0] in "_'.-")):
+            out += " "
+        elif out and rng.chance(1, 2):
+            out += " " if rng.chance(4, 5) else "  \n  "
+        out += s
+    return out
+
+
+def tytext_cases(rng, tier, add):
+    n = 220 if tier == "quick" else 2500
+    seen = set()
+    fixed = [[1], [2], [(3, 8), 4], [1, 7, 2, 8, (3, 4), 7, 1], [5, 1, 6], [5, 5, 2, 6, 6, 4, 4], [1, 4, 7, 1, 4], [11], [11, 8, 2],
+             [(10, 1), 8, (10, 1)], [(3, 3)], [(3, 2 ** 32)], [(3, 2 ** 31)], [1, 1], [], [5], [6], [5, 1], [1, 6], [7, 1], [1, 7], [4],
+             [1] + [4] * 999, [1] + [4] * 1000, [1] + [8, 1] * 998, [1] + [8, 1] * 999, [1] + [7, 2] * 1000,
+             [5] * 998 + [1] + [6] * 998, [5] * 999 + [1] + [6] * 999, [5] * 1000 + [1] + [6] * 1000,
+             [5, 5, 1] + [4] * 997 + [6] + [4] * 998 + [6] + [4] * 999,
+             [5, 5, 1] + [4] * 998 + [6] + [4] * 998 + [6] + [4] * 999,
+             [5, 1] + [8, 1] * 997 + [6] + [4] * 999, [5, 1] + [8, 1] * 998 + [6]]
+    for k in range(n):
+        r = rng.fork("tt%d" % k)
+        toks = fixed[k] if k < len(fixed) else gen_type_tokens(r, r.range(0, 4))
+        if k >= len(fixed) and r.chance(1, 4) and toks:
+            for _ in range(r.range(1, 2)):
+                j = r.below(len(toks))
+                q = r.below(3)
+                alt = r.choice([1, 2, 4, 4, 5, 6, 7, 8, (3, r.choice(POWS)), (10, 1)])
+                if q == 0:
+                    del toks[j]
+                elif q == 1:
+                    toks.insert(j, alt)
+                else:
+                    toks[j] = alt
+        text = join_tokens(r, toks)
+        if text in seen:
+            continue
+        seen.add(text)
+        add("tytext", text.encode().hex() or "-", "run_tytext [%s]" % "; ".join(tok_coq(t) for t in toks),
+            {"src": text[:300], "ntok": len(toks)})
+
+
+def check_typ(c, r):
+    """direct test on the implementation: parse(print(t)) == t, Display prints the documented form"""
+    if not isinstance(r, list) or 8 not in r:
+        return ("harness-result", "unreadable harness result %s" % (r[:40] if isinstance(r, list) else r))
+    ntok = r[0]
+    sep = None
+    # tokens: ntok groups, then the separator 8
+    p = 1
+    toks = []
+    for _ in range(ntok):
+        if p >= len(r):
+            break
+        if r[p] == 3:
+            toks += r[p:p + 2]
+            p += 2
+        else:
+            toks.append(r[p])
+            p += 1
+    if p >= len(r) or r[p] != 8:
+        return ("harness-result", "token group of %s" % r[:40])
+    res = r[p + 1:-1]
+    same = r[-1]
+    what = "type `%s`" % c.meta.get("ty")
+    if 9 in [t for i, t in enumerate(toks) if not (i > 0 and toks[i - 1] == 3)]:
+        if c.meta.get("ty") == "wv":
+            return ("type-word-2-31-display", "%s (2^(2^31)) is displayed as a text that is not a type token" % what)
+        return ("type-display-unlexable", "the Display of %s contains something the lexer does not accept" % what)
+    ref = c.meta.get("tokens")
+    if ref is not None and toks != ref:
+        return ("type-display-form", "the Display of %s gives tokens %s, documented form %s" % (what, toks[:60], ref[:60]))
+    if c.meta.get("budget", 0) > MAX_NESTING:
+        return None         # outside the nesting budget: refused by design (note in the evidence)
+    if res[:1] == [9]:
+        return ("parse-panic", "parsing the Display of %s panicked" % what)
+    if res[:1] == [1]:
+        if 4 in toks and res[1:2] == [12]:
+            return ("type-option-suffix", "the Display of %s uses `?` in a way the type grammar does not read (error 12)" % what)
+        return ("type-print-parse-error", "the Display of %s does not parse (error code %s)" % (what, res[1:2]))
+    if not same or (c.meta.get("nums") is not None and res[1:] != c.meta["nums"]):
+        return ("type-print-parse-differs", "the Display of %s parses to another type %s" % (what, res[1:40]))
+    return None
+
+
+# ------------------------------------------------------------------ literal forms (independent reading)
+def literal_cases(add_str):
+    """every literal form after `const` and `fail`, with the outcome an independent reading of the
+    documentation predicts: const needs 2^n bits (n <= 31), fail needs 128..512 bits"""
+    lits = ["_", "0b0", "0b1", "0b01", "0b011", "0b0101", "0b10101", "0b" + "10" * 4, "0b" + "1" * 7, "0b" + "1" * 9,
+            "0b" + "01" * 8, "0b" + "0" * 64, "0b" + "1" * 128, "0b" + "1" * 127, "0b" + "1" * 129,
+            "0x0", "0xa", "0xab", "0xabc", "0xabcd", "0xabcde", "0x" + "12" * 4, "0x" + "f" * 15, "0x" + "f" * 16, "0x" + "f" * 17,
+            "0x" + "ab" * 15 + "c", "0x" + "ab" * 16, "0x" + "ab" * 16 + "c", "0x" + "ab" * 32, "0x" + "cd" * 63, "0x" + "cd" * 64,
+            "0x" + "cd" * 64 + "e", "0x" + "cd" * 65, "0x" + "01" * 128, "0x" + "0" * 1024, "0x" + "0" * 1023]
+    bad_lex = ["0x", "0b", "0xAB", "0b2", "0xg", "0", "00", "0b_", "0x_1"]
+    other = ["unit", "const", "fail", "?x", "#" + "ab" * 32, "(0x00)", "main", "1", "2^8", ""]
+
+    def bits_of(l):
+        if l == "_":
+            return 0
+        return len(l) - 2 if l.startswith("0b") else 4 * (len(l) - 2)
+
+    for kw in ("const", "fail"):
+        for l in lits:
+            n = bits_of(l)
+            if kw == "const":
+                exp = None if (n > 0 and n & (n - 1) == 0 and n <= 2 ** 31) else 2
+                ctxs = ["main := comp (const %s) unit", "main := comp const %s unit", "x := const %s\nmain := comp x unit"]
+            else:
+                exp = 3 if n < 128 else (4 if n > 512 else None)
+                ctxs = ["main := fail %s", "main := comp unit (fail %s)", "x := fail %s\nmain := x"]
+            for ctx in ctxs:
+                add_str(ctx % l, "literal-%s" % kw, expect=("err", exp) if exp else ("ok",))
+        for l in bad_lex + other:
+            add_str(("main := comp (%s %s) unit" if kw == "const" else "main := comp unit (%s %s)") % (kw, l), "literal-bad-%s" % kw,
+                    expect=("noprog",))
+    # literals where no literal may be
+    for l in ["0xab", "0b1", "_"]:
+        add_str("main := comp %s unit" % l, "literal-misplaced", expect=("noprog",) if l != "_" else None)
+        add_str("main := %s" % l, "literal-misplaced")
+        add_str("%s := unit" % l, "literal-misplaced")
+
+
+def check_expect(c, d):
+    """prediction of the independent reading against the implementation result"""
+    e = c.meta.get("expect")
+    if not e or d is None:
+        return None
+    src = c.meta.get("src", "")
+    if e[0] == "err":
+        if d["stage"] != "error" or set(d["codes"]) != {e[1]}:
+            return ("literal-outcome", "source text %r: expected the error list {%d}, got %s" % (src[:120], e[1], {k: d[k] for k in d if k in ("stage", "codes")}))
+    elif e[0] == "ok":
+        if d["stage"] != "rendered":
+            return ("literal-outcome", "source text %r: a well-formed literal is refused: %s" % (src[:120], {k: d[k] for k in d if k in ("stage", "codes")}))
+    elif e[0] == "noprog":
+        if d["stage"] not in ("error",):
+            return ("literal-outcome", "source text %r: expected an error list, got %s" % (src[:120], d["stage"]))
+    return None
+
+
 # ------------------------------------------------------------------ run
 def run(rep, tier, rng):
     proof_ok = vplib.proof_stage(rep, "Props/C17.v", extra_targets=["Human/Run.vo"], translators=())
     rep.coverage["trusted_base"] = vplib.GENERIC_TRUSTED + [
         "models Human/Namer.v, Human/Render.v, Human/Resolve.v written by hand from src/human_encoding/{mod,named_node}.rs and parse/{mod,ast}.rs",
-        "not modelled, covered by the direct test only: the logos lexer and the line grammar, comment/column layout, printing and "
-        "parsing of type ascriptions (types::Final Display), number formats of words / fail entropy / cmr literals, type inference of the "
-        "reparsed program, jet name tables (C14)",
+        "model Human/TypeText.v written by hand from types/final_data.rs (Display, at the level of iterator items) and parse/ast.rs "
+        "(parse_type*, Parser::depth, check_nesting) at the level of lexer tokens; TMR equality = structural equality of types",
+        "not modelled, covered by the direct test only: the logos lexer (the harness tokenises printed types with its own reader) and "
+        "the line grammar, comment/column layout, number formats of words / fail entropy / cmr literals (an independent python reading "
+        "predicts the outcome of every literal form), type inference of the reparsed program, jet name tables (C14)",
         "identity-hash and commitment-root classes of the nodes of a committed program are taken from the implementation (input of the model)",
         "the recursive post-order walks of the model stand for PostOrderIter::next (their equality is C18)",
         "harness /verif/harness_human: reduces the rendered text to numbers with a minimal line reader",
     ]
     # the refuted renderer is the one before the fix F-C17 (fixed, 5461b0f); the model follows the code after
     # the fixes F-C17a..g; F-C17h (open) is about type ascriptions, below the level of the model
-    rep.coverage["refuted_lemmas"] = ["C17_render_old_refuted"]
+    rep.coverage["refuted_lemmas"] = ["C17_render_old_refuted", "C17_print_i32_refuted_w31", "C17_parse_nobudget_depth_refuted",
+                                      "C17_parse_perloop_depth_refuted", "C17_parse_print_ty_refuted_deep"]
     binary, out = vplib.harness_build("debug", crate=CRATE)
     if binary is None:
         raise vplib.Infra("harness build failed:\n" + out[-3000:])
@@ -1207,7 +1640,9 @@ def run(rep, tier, rng):
     good, jet_ids = prog_cases(rng.fork("prog"), tier, binary, rep, add)
     tstats = text_cases(rng.fork("text"), tier, good, jet_ids, add)
     string_cases(rng.fork("str"), tier, add)
-    rep.coverage["generator"].update({"corpus_cases": ncorpus, "text_variants": tstats})
+    ntyp = type_cases(rng.fork("typ"), tier, add)
+    tytext_cases(rng.fork("tytext"), tier, add)
+    rep.coverage["generator"].update({"corpus_cases": ncorpus, "text_variants": tstats, "type_cases": ntyp})
 
     impl, model = vplib.eval_cases(rep, binary, "human", cases, IMPORTS, tag="c17", batch=60,
                                    harness_timeout=240 if tier == "quick" else 1200)
@@ -1218,12 +1653,14 @@ def run(rep, tier, rng):
         r = impl.get(c.cid)
         m = model.get(c.cid)
         if m is not None:
-            model_c[c.cid] = canon_model(c, m)
+            model_c[c.cid] = m if c.kind in ("typ", "tytext") else canon_model(c, m)
         impl_c[c.cid] = r
     impl_cmp = {}
     for c in cases:
         r = impl.get(c.cid)
-        if c.expr is not None and c.cid in model_c and isinstance(r, list):
+        if c.kind in ("typ", "tytext", "textcmr"):
+            impl_cmp[c.cid] = r
+        elif c.expr is not None and c.cid in model_c and isinstance(r, list):
             impl_cmp[c.cid] = canon_impl(c, r, model_c[c.cid])
         else:
             impl_cmp[c.cid] = r
@@ -1310,6 +1747,13 @@ def run(rep, tier, rng):
     rep.coverage["samples"] = [{"kind": c.kind, "args": c.line[:300], "impl": (impl.get(c.cid) or [])[:80] if isinstance(impl.get(c.cid), list) else impl.get(c.cid),
                                 "model": (model.get(c.cid) or [])[:80]} for c in sample[::max(1, len(sample) // 4)][:5]]
     rep.notes += [
+        "observation (not a finding; the limit is the design of the fixes F-C17i/j/l): a type nested MAX_NESTING = 1000 or more deep "
+        "(words counting as leaves) is rendered but refused on reparse (`nested too deeply`); the exact bound is Human/TypeText.v "
+        "`small` (tdepth t < 1000): theorem C17_parse_print_ty holds for every small type, C17_parse_print_ty_refuted_deep / "
+        "parse_print_ty_deep_ok show that the left-nested product of 1001 factors (depth 1000) is refused and that of 1000 factors is "
+        "read back; every type with at most 1000 constructors is small (C17_small_of_size); C17_parse_depth_bounded: every type the "
+        "parser accepts is nested less than 1000 deep; such cases are generated (kind typ, meta budget > 1000), compared with the "
+        "model and excluded from the round-trip clause",
         "observation (not a violation: the property asks for termination): the lexer computes line/column of every token by "
         "scanning the input from its start (parse/ast.rs offset_to_position), so parsing is quadratic in the text size; measured "
         "with the debug harness on the rendering of `x_{k+1} := injl x_k` chains: 50 lines (25 KB rendered) second parse 0.13 s, "
